@@ -206,6 +206,26 @@ unsigned MessageBase::decode_group(GroupBase *grpbase, const unsigned short fnum
 			BaseField *bf(be->_create._do(val, be->_rlm, -1));
 			grp->add_field(tv, itr, ++pos, bf, false);
 			grp->_fp.set(tv, itr, FieldTrait::present);	// is present
+			if (itr->_ftype == FieldTrait::ft_Length)	// as in decode(): a following data field is read by this length
+			{
+				unsigned short ntv(0);
+				for (const char *np(dptr + s_offset); np < dptr + fsize && isdigit(*np); ++np)
+					ntv = ntv * 10 + (*np - '0');
+				Presence::const_iterator nitr(grp->_fp.get_presence().find(ntv));
+				const BaseEntry *dbe(nitr != grp->_fp.get_presence().end() && nitr->_ftype == FieldTrait::ft_data
+					&& !nitr->_field_traits.has(FieldTrait::present) ? _ctx.find_be(ntv) : nullptr);
+				if (dbe)
+				{
+					const unsigned val_sz(fast_atoi<unsigned>(val));
+					if (val_sz > FIX8_MAX_FLD_LENGTH - 1)
+						throw f8Exception("Value size too large");
+					if (!(result = extract_element_fixed_width(dptr + s_offset, fsize - s_offset, val_sz, tag, val)))
+						throw MissingMandatoryField("Unable to extract fixed width field");
+					s_offset += result;
+					grp->add_field(ntv, nitr, ++pos, dbe->_create._do(val, dbe->_rlm, -1), false);
+					grp->_fp.set(ntv, nitr, FieldTrait::present);
+				}
+			}
 			// nested group (check if not zero elements)
 			if (grp->_fp.is_group(tv, itr) && has_group_count(bf))
 				s_offset = grp->decode_group(grpbase, tv, from, s_offset, ignore);
